@@ -177,10 +177,12 @@ static void check_hilbert_filter(int flen, double tw, vh::Rng& r, int ntones) {
     }
 }
 
+static long g_tuner_cap = 400000;
+
 static void check_tuner(int fs, double f, vh::Rng& r, int nper) {
     const std::string cfg = vh::fmt("Tuner(fs=%d, f=%.17g)", fs, f);
     vh::begin_case("tuner", "%s", cfg.c_str());
-    const long total = std::min<long>(400000, long(fs) * nper + int(r.below(std::max(2, fs))));
+    const long total = std::min<long>(g_tuner_cap, long(fs) * nper + int(r.below(std::max(2, fs))));
     dl::Tuner t(fs, f);
     vh::Hasher hh;
     hh.s(cfg).i(total);
@@ -258,7 +260,8 @@ int main(int argc, char** argv) {
     }
     //Tuner
     {
-        std::vector<int> fss = {8, 9, 16, 100, 1000, 8000, 44100, 100000};
+        g_tuner_cap = thorough ? 2000000 : 400000;
+        std::vector<int> fss = {8, 9, 16, 100, 1000, 8000, 44100, 65537, 96000, 100000, 192000, 1000000};
         for (int fs : fss) {
             const int nf = thorough ? 8 : 4;
             for (int j = 0; j < nf; ++j) {
